@@ -65,6 +65,8 @@ def step(styles, nums, state, newsizes, mode):
     """the real transition: returns new state (sizes, sel, thr) or ('exc', msg)"""
     sizes, sel, thr = state
     cards, cons = build(styles, nums, dict(zip(IDS, newsizes)), dict(zip(IDS, thr)))
+    for i in sel:  # the card objects persist from round to round and carry the flag the previous round left on them
+        cards[i].sampled = True
     try:
         if mode == "redraw":
             out = CVR.consistent_sampling(cards, cons)
@@ -271,7 +273,7 @@ def worlds(pl):
         ps = list(itertools.permutations(range(n))) if perms == "all" else perms
         for styles in itertools.product(menu, repeat=n):
             for perm in ps:
-                yield (styles, tuple(10 * p + 3 for p in perm))
+                yield (styles, tuple(10 * p for p in perm))  # the smallest sample number is 0
 
 
 def run_shard(sh, rec):
